@@ -592,6 +592,24 @@ def run_commands(x, kw):
     return text, ns[name], "ok", None
 
 
+def twin_constructs(f):
+    """the precondition of the open C05 finding on greedy matching: two metadata constructs of one type that are
+    identical but for their key, their axes and their netCDF names (which `equals` does not look at)"""
+    try:
+        from harness import fingerprint as _fp
+        seen = set()
+        for k, c in f.constructs.todict().items():
+            if c.construct_type in ("domain_axis", "cell_method", "coordinate_reference"):
+                continue
+            h = (c.construct_type, json.dumps(_fp.fingerprint(c, names=False), sort_keys=True, default=str))
+            if h in seen:
+                return True
+            seen.add(h)
+    except Exception:
+        return False
+    return False
+
+
 def both_equal(x, y):
     """True / False, or None when `equals` itself raises (a C05 matter, not decidable here)."""
     try:
@@ -1217,6 +1235,22 @@ def impl_cmds(c):
         # equals is property C05; here the abstract comparison in the oracle decides
         eq = True
         c.tags = tuple(c.tags) + ("cmds:equals-raises(C05)",)
+    elif eq is False:
+        # `equals` of fields/domains has an open C05 finding: identical (or interchangeable) metadata constructs
+        # on different axes - e.g. two size-1 dimension coordinates with the same values, or the constructs of two
+        # axes of equal size - are matched greedily in an order that depends on the hash seed: on the SAME pair of
+        # objects it answers True under PYTHONHASHSEED=0 and False under 1 (alarm replays of seeds 3 and 4).  The
+        # rebuilt container has the same keys, so the independent structural fingerprint (properties, data type,
+        # shape, hashes of values and mask, bounds, every construct with the axes it spans, cell methods in order,
+        # coordinate references, netCDF names) decides, together with the abstract comparison of the oracle: if it
+        # is identical the False verdict is C05's, not C19's; if it differs the case is reported.
+        try:
+            from harness import fingerprint as _fp
+            if _fp.fingerprint(x) == _fp.fingerprint(y):
+                eq = True
+                c.tags = tuple(c.tags) + ("cmds:equals-false-fingerprint-equal(C05)" + ("" if twin_constructs(x) else ":no-identical-pair"),)
+        except Exception:
+            pass
     c.extra["equal"] = bool(eq)
     c.extra["type"] = type(x) is type(y)
     c.extra["nc"] = nc_names(x) == nc_names(y)  # cell methods by order, coordinate references as a multiset
